@@ -1583,6 +1583,9 @@ class XMLOutputFormattingWrapper:
                         excType, excInstance, tb = testCase.error
                         errorMessage = str(excInstance)
                         stackTrace = ''.join(traceback.format_tb(tb))
+                    except Exception:  # e.g. raised by ``__str__``
+                        errorMessage = 'Could not extract error str'
+                        stackTrace = ''.join(traceback.format_tb(tb))
                     finally:  # Avoids a memory leak
                         del tb
 
@@ -1600,9 +1603,8 @@ class XMLOutputFormattingWrapper:
                         excType, excInstance, tb = testCase.failure
                         errorMessage = str(excInstance)
                         stackTrace = ''.join(traceback.format_tb(tb))
-                    except UnicodeEncodeError:
-                        errorMessage = 'Could not extract error str ' \
-                            'for unicode error'
+                    except Exception:  # e.g. raised by ``__str__``
+                        errorMessage = 'Could not extract error str'
                         stackTrace = ''.join(traceback.format_tb(tb))
                     finally:  # Avoids a memory leak
                         del tb
